@@ -130,10 +130,6 @@ class GPO(Algorithm):
             else:
                 point = self.goodx
 
-            if self.counter >= 2 * self.half_phase_length:
-                self.phase += 1
-                self.counter = 0
-
         return point
 
     def receive_reward(self, time, reward):
@@ -152,11 +148,7 @@ class GPO(Algorithm):
         -------
         """
         if self.phase > self.N:  # If already finished
-            pass
-        elif self.phase == self.N:
-            maxind = np.argmax(np.array(self.V_reward))
-            self.goodx = self.V_x[maxind]
-
+            return
         else:
             if self.counter < self.half_phase_length:
                 self.curr_algo.receive_reward(time, reward)
@@ -168,6 +160,13 @@ class GPO(Algorithm):
                 ) / (self.counter - self.half_phase_length + 1)
 
         self.counter += 1
+        if self.counter >= 2 * self.half_phase_length:
+            # this phase is over: start the next base learner, or finish
+            self.phase += 1
+            self.counter = 0
+            if self.phase > self.N:
+                maxind = np.argmax(np.array(self.V_reward))
+                self.goodx = self.V_x[maxind]
 
     def get_last_point(self):
         """
